@@ -21,10 +21,10 @@ def P(title, level, rule, explanation, level_text, level_note, technique, jobs, 
 PROPS = {
     "C02": P("Retry budget and fallback exact", "exploration",
         "cases = (node kind/style, budget N, exec failure sequence, fallback script): EXHAUSTIVE for N in 1..8 x all 2^(N+1) failure sequences x fallback{ok,err,passthrough} x every kind; "
-        "plus rapid-generated flows (also under a context deadline that never expires), flows that themselves carry a retry budget, and gated batch scenarios in every mode (each executed item judged by the same model); error values include wrapped context errors, non-comparable and net.Error-like types; non-trivial = N>=2 and at least one failed attempt; distinct = FNV-64 of scenario JSON",
-        "oracle: attempts == min(k,N) from the script alone; fallback exactly once iff all N failed, with the prep value and the error INSTANCE of attempt N-1; post/slot receives the fallback's outcome else the successful attempt's",
+        "plus rapid-generated flows and gated batch scenarios in every mode (each executed item judged by the same model; in stop mode only items settled before the stop are held to the exact budget); every run gets context.Background() (contexts are outside the quantifier); error values include wrapped context errors, non-comparable and net.Error-like types; non-trivial = N>=2 and at least one failed attempt; distinct = FNV-64 of scenario JSON",
+        "oracle: attempts == min(k,N) from the script alone; fallback exactly once iff all N failed, with the prep value (function-style nodes: also inside the Result the phases are threaded through) and an error that matches the error of attempt N-1 under errors.Is/As (wrapping and joining admitted); post/slot receives the fallback's outcome else the successful attempt's",
         "exhaustive over the whole quantified single-node space (N<=8), generated search for flows and batch items",
-        "trusted: the 20-line retry/fallback model in c02_test.go; error identity by interface equality of distinct error tokens",
+        "trusted: the 20-line retry/fallback model in c02_test.go; error identity by walking the returned error's Unwrap tree for the very token",
         T_PBT + "oracle = reference model of retry/fallback over callback traces",
         [job("main", "^TestC02$", q=4, th=16)]),
     "C03": P("Flow routing follows the table", "exploration",
@@ -37,17 +37,17 @@ PROPS = {
         T_PBT + "oracle = reference interpreter / model-based state machine",
         [job("main", "^TestC03$", q=4, th=16, tth=3400), job("fuzz", "^$", fuzz="^FuzzC03$", fuzztime=60, tiers=("thorough",), tth=600)]),
     "C04": P("Errors transparent, flows fail-stop", "fault_enumeration",
-        "rapid generates failure-free workflow scenarios (depth<=4); for each, EVERY event of its reference path (leaf visit x phase x attempt) is injected as the single failure in 4 error flavours (sentinel, %w-wrapped, pointer type, value type) plus 'all attempts fail'; "
+        "rapid generates failure-free workflow scenarios (depth<=4); for each, EVERY event of its reference path (leaf visit x phase x attempt) is injected as the single failure in 9 error flavours (sentinel, %w-wrapped, pointer type, value type, errors wrapping context errors, a non-comparable and two net.Error-like types) plus 'all attempts fail'; about one leaf in eight is a batch node used as a flow member (its prep and post are positions, its items are not); "
         "plus random multi-failure scripts; non-trivial = the failure ends the run at depth>=1 or is absorbed by retry/fallback",
-        "oracle (model-free, over the actual trace): err==nil iff every node run on the path ended with a successful post; the returned error matches (errors.Is, inner sentinel, errors.As to the same instance) the LAST callback of the trace; no callback after the failing node run",
+        "oracle (model-free, over the actual trace): err==nil iff every node run on the path ended with a successful post; the returned error matches (the very value in its Unwrap tree, its inner sentinel too, errors.As finds the type) the LAST failing callback of the trace; no callback after the failing node run",
         "fault enumeration over every position of the executed path of each generated scenario",
         "trusted: trace recorder; 'ending callback' is identified as the last callback whose returned error matches",
         "fault-injection enumeration driven by rapid-generated scenarios with shrinking; oracle = errors.Is/As identity + fail-stop predicate over the callback trace",
         [job("main", "^TestC04$", q=4, th=16)]),
     "C05": P("Cancellation of nodes and flows", "fault_enumeration",
-        "rapid generates workflow scenarios (single nodes and nested flows, budgets 1..4, with/without retry waits); cancellation is injected before the run and inside EVERY callback of the cancellation-free reference run, as cancel() from inside the callback and as a context deadline falling mid-callback (virtual clock); "
+        "rapid generates workflow scenarios (single nodes and nested flows, budgets 1..4, with/without retry waits, one leaf in five a batch node used as a flow member); cancellation is injected before the run and inside EVERY callback of the cancellation-free reference run, as cancel() from inside the callback and as a context deadline falling mid-callback (virtual clock); "
         "non-trivial = cancellation lands inside the run and suppresses at least one callback of the reference run",
-        "oracle: pre-done => no callback and errors.Is(err, ctx.Err()); after the cancellation instant no exec attempt and no prep starts; actual trace is a prefix of the reference; a strict prefix must return an error matching ctx.Err()",
+        "oracle: pre-done => no callback and errors.Is(err, ctx.Err()); after the cancellation instant - located on the judged run's OWN time stamps, the reference run only proposes it - no exec attempt and no prep starts, whatever kind the next node is (cancellation inside a batch node's own callbacks is C11's); the attempt/node-start projection is a prefix of the reference's; if an attempt or node start is missing the error must match ctx.Err(), if only fallback/post are missing the run must not report success",
         "fault enumeration over all cancellation points of each generated scenario, in a synctest bubble (deterministic)",
         "trusted: testing/synctest virtual time; each callback takes 1 virtual second",
         "cancellation-point enumeration over rapid-generated scenarios in synctest bubbles; oracle = prefix-of-reference + ctx-error predicate",
@@ -55,13 +55,13 @@ PROPS = {
     "C06": P("Batch results positional; post once", "exploration",
         "cases = gated batch scenarios (n items, c workers, prep payload form, per-item scripts, release schedule). EXHAUSTIVE over all completion orders (replay-based DFS over 'which parked exec next') for the (n,c) pairs listed in exhaustive_subspaces; rapid: n in 0..96 (fixed cases up to 129), c in 0..16, 9 prep payload forms, continue and stop mode, gated random release orders, un-gated random virtual durations, and runs struck by a cancellation; "
         "non-trivial = c>=2 and completion order differs from index order",
-        "oracle: post exactly once, entered with no exec in flight and all n started; items element-wise identical to prep's; len(results)==n; slot i == the outcome (value identity / error instance) of item i's own last callback",
+        "oracle: post exactly once, entered with no exec in flight and all n started (strict without stop mode / cancellation; otherwise an item still executing must carry an error in the slot post saw - slots are snapshotted at post time); items element-wise identical to prep's; len(results)==n; slot i == the outcome (value identity / error instance) of item i's own last callback",
         "schedule enumeration: every completion order for n<=8,c<=4 (quick) and n=10,c=5 (thorough)",
         "trusted: synctest quiescence = every started exec has reached its gate",
         "schedule-enumerating property test in synctest bubbles + rapid generation; oracle = positional slot/item identity predicate",
         [job("main", "^TestC06$", q=4, th=16)]),
     "C07": P("Batch: every item once, per-item retry/fallback", "exploration",
-        "cases = batch scenarios with independent per-item scripts: EXHAUSTIVE script assignments for n<=2 (quick) / n<=3 (thorough), budget<=2, c in 0..3, fallback on/off, two release orders; rapid: n<=32, budget<=4, c<=8, random release orders, retry waits, live context deadlines, a second run of the same node object after reconfiguration, and un-gated timed runs; "
+        "cases = batch scenarios with independent per-item scripts: EXHAUSTIVE script assignments for n<=2 (quick) / n<=3 (thorough), budget<=2, c in 0..3, fallback on/off, two release orders; rapid: n<=32, budget<=4, c<=8, random release orders, retry waits, and un-gated timed runs; "
         "non-trivial = >=2 distinct item scripts, >=1 failing item, c>=2",
         "oracle: per item the C02 model on its own script (attempt count, numbering, fallback count/arguments, slot) and a differential run of the same script as a single NewNode; total exec calls == sum of model attempts",
         "generated search with exhaustive small scope",
@@ -71,7 +71,7 @@ PROPS = {
     "C08": P("Concurrency limit hard and usable", "exploration",
         "cases = gated batches for every c in 0..16 with n=4c+8, all release orders for (n,c) in {(5,2),(6,3),(7,3),(7,4)}, rapid batches (n<=4c+8) and direct WorkerPool scenarios (sizes -1..16, 1..4 submitters, up to 3 Wait rounds), gated or with random virtual durations, plus c-way barrier scenarios; "
         "non-trivial = n>c>=2 (queue refills) / tasks>3*workers or multiple submitters/rounds",
-        "oracle at EVERY quiescent point: in-flight == min(c, unfinished) (upper bound and usability in one equation; c==0: exactly one, in item order); atomic high-water mark <= c; c mutually waiting items must complete (else the bubble's deadlock panic is the violation)",
+        "oracle at EVERY quiescent point: in-flight == min(c, unfinished) (upper bound and usability in one equation, re-evaluated after one virtual second without any release before it counts as failed; c==0: exactly one, in item order); atomic high-water mark <= c; c mutually waiting items must complete (else the bubble's deadlock panic is the violation)",
         "schedule exploration with an invariant evaluated at every quiescent point",
         "trusted: synctest.Wait() returns only when every goroutine of the case is durably blocked",
         "gated schedule exploration in synctest bubbles; oracle = in-flight equation at quiescent points + high-water mark + deadlock detection",
@@ -87,7 +87,7 @@ PROPS = {
     "C10": P("Flow used as a node == flattened machine", "exploration",
         "cases = rapid-generated hierarchical flows (depth<=4; structured generator that connects (inner flow, action) pairs with high probability + two random generators), inner flows ending by unconnected action, nil connection or error, shared inner flows, repeated runs; "
         "non-trivial = depth>=2 and the parent follows a non-default connection on an inner flow's final action",
-        "oracle: differential - the harness flattens the hierarchy (call-path states, successor via inner table -> exit -> parent table -> entry) into a REAL single-level flyt.Flow over fresh wrappers sharing the leaves' behaviours, runs both and requires identical callback sequence, store contents, success/failure; every inner callback must see the outermost store pointer; the reference interpreter must agree too",
+        "oracle: differential - the harness flattens the hierarchy (call-path states, successor via inner table -> exit -> parent table -> entry) into a REAL single-level flyt.Flow over fresh wrappers sharing the leaves' behaviours, runs both and requires identical callback sequence, store contents, success/failure; 'same shared store' is probed behaviourally at every callback (a write through its store must be visible through the previous callback's store and vice versa); the reference interpreter must agree too; batch nodes occur as members",
         "differential generated search",
         "trusted: flatten() in c10_test.go",
         "differential property-based testing (nested vs flattened real flows) with rapid shrinking",
@@ -104,7 +104,7 @@ PROPS = {
     "C12": P("Worker pool", "exploration",
         "cases = WorkerPool scenarios in a bubble: every size -1..16 x {0,1,5w+3 tasks, three submitters} x gated/timed x two Wait rounds; rapid: sizes -1..16, 0..500 tasks, 1..4 submitters, 1..3 Submit/Wait rounds, gated release orders or random virtual durations, a late submitter adding tasks while Wait is in progress; the same under the race detector with tasks doing plain writes read after Wait; "
         "non-trivial = tasks>3*workers (queue overflows) or >=2 submitters or >=2 rounds",
-        "oracle: every task counter == 1; at every quiescent point a goroutine blocked in Wait() has not returned while a submitted task is unfinished; in-flight == min(workers, unfinished); plain writes visible after Wait (race detector: happens-before); after Close the bubble ends clean (a surviving worker = 'blocked goroutines remain' panic); lost task = deadlock panic",
+        "oracle: every task counter == 1; at every quiescent point a goroutine blocked in Wait() has not returned while a submitted task is unfinished; plain writes visible after Wait (race detector: happens-before); after Close the bubble ends clean (a surviving worker = 'blocked goroutines remain' panic); lost task = deadlock panic",
         "schedule exploration in deterministic bubbles + race-detector run",
         "trusted: synctest leak/deadlock detection; Go race detector's happens-before tracking (visibility is decided only on the executions that occur)",
         "gated schedule exploration in synctest bubbles with rapid; oracle = exactly-once counters, Wait-barrier predicate at quiescent points, leak detection, race detector",
@@ -118,11 +118,11 @@ PROPS = {
         "randomised concurrent history generation (rapid) + linearizability checking (porcupine) + invariant stress + race detector",
         [job("main", "^TestC13$", q=4, th=16), job("race", "^TestC13$", q=2, th=8, race=True)]),
     "C14": P("Store equals a map; isolated snapshots", "exploration",
-        "cases = rapid-generated operation sequences up to length 200 over keys {\"\", a, é, emoji, a\\x00, 160-char, b, k} and 19 value kinds (nil, NaN, maps, slices, structs, pointers, typed nils, funcs): Set, Delete, Clear, Merge(map|nil|alias of an earlier GetAll snapshot), GetAll, Keys, snapshot mutations (write/delete in returned maps; overwrite/append/sort returned key slices); "
+        "cases = rapid-generated operation sequences up to length 200 over keys {\"\", a, é, emoji, a\\x00, 160-char, b, k} and 19 value kinds (nil, NaN, maps, slices, structs, pointers, typed nils, funcs): Set, Delete, Clear, Merge(map|nil|alias of an earlier GetAll snapshot), GetAll, Keys, snapshot mutations (write/delete in returned maps; overwrite/append/sort returned key slices), in-place mutation of value objects the model no longer holds; "
         "non-trivial = a Clear or Merge followed by further writes, and at least one snapshot mutation",
         "oracle: model-based - after EVERY step Len/Keys/GetAll/Has/Get agree with a reference map and with each other; every snapshot ever handed out still equals its expected content; mutating snapshots or Merge arguments never changes the store",
         "model-based state-machine testing",
-        "trusted: the reference map; value identity by pointer for reference kinds, NaN-aware equality",
+        "trusted: the reference map; a container that comes back may be the very object or an equal copy (NaN-aware deep equality), other reference kinds by pointer",
         "model-based property testing (rapid, shrinking sequences) against a reference map",
         [job("main", "^TestC14$", q=4, th=16), job("fuzz", "^$", fuzz="^FuzzC14$", fuzztime=60, tiers=("thorough",), tth=600)]),
     "C15": P("Typed accessors total/consistent/faithful", "exploration",
@@ -136,7 +136,7 @@ PROPS = {
     "C16": P("Bind", "exploration",
         "cases = (source recipe, destination form, prepopulated?, via store/result/missing key): 315 hostile sources x 24 destination forms exhaustively; rapid random recipes biased to JSON-marshalable composites; sequences of binds in one process; store sessions in which stored reference values are updated in place between binds of the same key; thorough adds native fuzzing; "
         "non-trivial = destination type differs from the source type, or an error case",
-        "oracle: independent reference on twin-built values - own type => *dest = v (identity, incl. unexported fields and same reference); otherwise json.Marshal + json.Unmarshal into a twin destination; compare destination contents (deep, NaN-aware) and error nil-ness; never panics; source deep-equal to its twin afterwards; store.Bind == Result.Bind on non-nil values",
+        "oracle: independent reference on twin-built values - own type => *dest = v (unchanged incl. unexported fields; pointers/funcs/chans the very value, maps/slices possibly in a fresh container); otherwise json.Marshal + json.Unmarshal into a twin destination; compare error nil-ness always and destination contents (deep, NaN-aware) after a successful Bind; typed-nil sources only 'no panic, unmodified, store==result'; never panics; source deep-equal to its twin afterwards; store.Bind == Result.Bind on non-nil values",
         "differential generated search against encoding/json",
         "trusted: encoding/json and reflect as the reference",
         "differential property-based testing (rapid + native fuzz) against an encoding/json reference on twin values",
@@ -144,14 +144,14 @@ PROPS = {
     "C17": P("Function-style nodes pass values unchanged", "exploration",
         "cases = all 8 Result/Any style combinations x option/builder x fallback x 8 payload kinds x exec{value, error-then-value, error Result with nil error} exhaustively; rapid: single nodes and flows of function-style leaves with random scripts; batch exec functions (Result/Any) incl. error-Result outcomes and pre-made error items; every case also run as its style twin; "
         "non-trivial = mixed styles or nil / error-Result payload",
-        "oracle: exec receives prep's payload (identity), post receives the exec phase's payload; an error Result from exec reaches a Result-style post with IsError() and the same error instance, never wrapped a second time; Result-style and Any-style twins observe deep-equal payloads and the same outcome",
+        "oracle: exec receives prep's payload (identity), post receives the exec phase's payload; an error Result returned by exec with a nil error must reach the post function - a Result-style post with IsError() and that error, never wrapped a second time; Result-style and Any-style twins observe deep-equal payloads and the same outcome",
         "generated search with exhaustive style matrix",
-        "trusted: trace recorder; Any-style post receiving nil or the error-carrying Result for an error Result is accepted",
+        "trusted: trace recorder; Any-style post receiving nil, the error-carrying Result or the bare error for an error Result is accepted",
         T_PBT + "oracle = payload identity predicate + metamorphic style-twin relation",
         [job("main", "^TestC17$", q=4, th=16)]),
     "C18": P("Success never yields the empty action", "exploration",
         "cases = exhaustive configuration matrix: every leaf kind/style, flow-as-node, batch nodes (9 prep forms x n in 0..3 x c in 0..2 x with/without post x builder/*BatchNode) x post in {empty, default, custom} x {run directly, routed step of a flow whose default edge leads to a sentinel}: 5004 configurations (incl. exec path {succeeds, succeeds on retry, fallback recovers} and batches run under an already-cancelled context); every case is non-trivial by construction (distinct configuration)",
-        "oracle: err==nil => action non-empty and == default when post returned empty; in a flow the default-connected sentinel runs iff post returned empty or default; an edge on the empty action is never followed",
+        "oracle: err==nil => action non-empty and == default when post returned empty; in a flow the default-connected sentinel runs when post returned empty or default (what a custom action selects is C01/C03/C10's)",
         "exhaustive enumeration of the quantified configuration space",
         "trusted: harness node constructors",
         "exhaustive small-scope enumeration with a direct oracle",
@@ -159,15 +159,15 @@ PROPS = {
     "C19": P("Configuration styles equivalent", "exploration",
         "cases = setting sequences over {max retries, wait, batch concurrency, batch error handling, prep/exec/post/fallback function} x 3 values x {constructor option (both as NodeOption and as plain func(*BaseNode)), builder method}, for NewNode and NewBatchNode: exhaustive for length<=3 (quick)/<=5 (thorough) over the four scalar parameters, rapid up to length 6 (+2) over all eight; "
         "non-trivial = at least two different forms or an overwritten parameter",
-        "oracle (metamorphic): expected configuration = last-wins fold over the actual application order; the sequence as given, its all-option and its all-builder realisation must show equal getters AND equal probe behaviour in a bubble (attempts of a failing item, virtual wait between attempts, in-flight count at quiescence, stop vs continue, which function instance ran); untouched parameters keep the documented defaults",
+        "oracle (metamorphic): expected configuration = last-wins fold over the actual application order; the sequence as given, its all-option and its all-builder realisation must show equal getters AND equal probe behaviour in a bubble (attempts of a failing item, virtual wait between attempts >= configured, in-flight count at the first quiescent point <= c and equal between the realisations, stop vs continue, which function instance ran); untouched parameters keep the documented defaults; outcome of runs with a failing item and of nodes without an exec function only compared between the realisations",
         "metamorphic generated search with exhaustive small scope",
         "trusted: probe; function options passed to NewBatchNode are outside the asserted domain (silently ignored by that constructor, see DESIGN.md)",
         "metamorphic property-based testing (rapid) + exhaustive short sequences; oracle = last-wins fold, three realisations compared on getters and probe runs",
         [job("main", "^TestC19$", q=4, th=16)]),
     "C20": P("Retry wait honoured and interruptible", "exploration",
-        "cases (virtual clock): single nodes - budgets 2..5 x every failure sequence x waits {1,2,5,10,25,50 ms, 1 h} x {no cancellation, deadline inside the wait after each attempt index} x 3 node kinds exhaustively, rapid beyond; batch items - rapid, sequential and c in 1..4, un-gated attempts with virtual durations, optional deadline; "
+        "cases (virtual clock): single nodes - budgets 2..5 x every failure sequence x waits {0.1, 0.999, 1,2,5,10,25,50 ms, 1 h} x {no cancellation, deadline inside the wait after each attempt index} x 3 node kinds exhaustively, rapid beyond; batch items - rapid, sequential and c in 1..4, un-gated attempts with virtual durations, optional deadline; "
         "non-trivial = >=2 attempts actually made with wait>0",
-        "oracle on virtual timestamps: start[a+1]-end[a] == w exactly; first attempt starts at 0; run ends when the last attempt ends (no wait after it); with a deadline at T inside a wait the run returns at exactly T with errors.Is(err, DeadlineExceeded) and no further attempt; per batch item the same on its own timeline, and the batch returns no later than max(deadline, last callback end)",
+        "oracle on virtual timestamps: start[a+1]-end[a] >= w (waits >= 1 ms); first attempt starts at 0; run ends when the last attempt ends (no wait after it); a deadline that - on the judged run's own timeline - falls into the gap after attempt j: no attempt j+1, errors.Is(err, DeadlineExceeded), return within one virtual minute (decisive for the 1 h wait); per batch item the same on its own timeline (retry attempts only; item starts after a deadline are C11's), and the batch returns within a minute of max(deadline, last callback end)",
         "exhaustive over the quantified single-node space, generated search for batches; exact because the clock is virtual",
         "trusted: testing/synctest virtual time (no wall-clock assertion anywhere)",
         "virtual-time property testing in synctest bubbles (rapid + exhaustive small scope); oracle = exact timestamp equations",
